@@ -60,6 +60,47 @@ def wakeup_paths(chk, m, K, Kconst):
     chk.expect("U1", "paths of get_next_wakeup", n, 3)
 
 
+def check_main_loop_clock(chk, mp):
+    """U4.fresh-clock: the time the main loop subtracts from the returned wake-up time is sampled AFTER the pass returned;
+    with a clock sampled before the pass the loop oversleeps by the time the dispatched fibre ran."""
+    if not mp.has_fn("fibre_scheduler_main_loop"):
+        chk.unknown("U4.fresh-clock", "fibre_scheduler_main_loop", "anchor vanished")
+        return
+    fn = mp.functions["fibre_scheduler_main_loop"]
+    chk.note_fn(fn)
+    n = 0
+    for s0, p in paths.enumerate_segments(fn, mp):
+        for k, e in enumerate(p.events):
+            if e.kind != "call" or e.callee not in ("usleep", "nanosleep", "sleep"):
+                continue
+            sid = "fibre_scheduler_main_loop %s..%s" % (s0.lstrip("%"), p.end)
+            diffs = []
+            srcs = [e.args[0]] + [c for c, t, i in p.conds]      # a capped interval is a constant chosen by a test of the difference
+            for x in (y for src in srcs for y in paths.subexprs(src)):
+                if x[0] == "call" and x[1] == "cyclecmp32" and len(x[2]) == 2:
+                    diffs.append((x[2][0], x[2][1]))
+                elif x[0] == "b" and x[1] == "sub":
+                    diffs.append((x[3], x[4]))
+            diffs = list(dict.fromkeys((a, b) for a, b in diffs if paths.contains(a, lambda y: y[0] == "call" and y[1] == "fibre_scheduler_next")))
+            if not diffs:
+                chk.unknown("U4.fresh-clock", sid, "the sleep interval %s is not derived from a difference with the value returned by "
+                            "fibre_scheduler_next" % fmt(e.args[0])[:80], e.inst.loc)
+                continue
+            n += 1
+            for a, b in diffs:
+                nxt = [y for y in paths.subexprs(a) if y[0] == "call" and y[1] == "fibre_scheduler_next"][0]
+                b0 = strip_casts(b)
+                if b0[0] == "call" and b0[1] == "time_now":
+                    ok = b0[3] > nxt[3]
+                    chk.ob("U4.fresh-clock", sid, ok,
+                           "the sleep is (returned wake-up time) - time_now() with the clock read after the pass" if ok else
+                           "the sleep is computed against a clock value read BEFORE the pass (the same value that was handed to "
+                           "fibre_scheduler_next): the loop oversleeps by however long the dispatched fibre ran", e.inst.loc, fn.name)
+                else:
+                    chk.unknown("U4.fresh-clock", sid, "subtrahend %s is not a call of time_now()" % fmt(b)[:60], e.inst.loc)
+    chk.expect("U4", "sleep computations in fibre_scheduler_main_loop", n, 1)
+
+
 def run(chk):
     chk.explanation = (
         "Static analysis of the value returned by fibre_scheduler_next over all its paths (with get_next_wakeup's paths): the "
@@ -69,7 +110,7 @@ def run(chk):
     chk.rule("U1", "returned value is now | duetime of the head of kernel.timerq | now + FIBRE_UNBOUNDED_SLEEP (< 2^31)")
     chk.rule("U2", "non-now values are guarded by atomic queue empty AND run queue empty; now + K additionally by timer queue empty")
     chk.rule("U3", "on every path of fibre_scheduler_next: returns now when the dispatched fibre yielded, otherwise the value of get_next_wakeup() called after the dispatch")
-    chk.rule("U4", "fibre_scheduler_main_loop computes its sleep as a signed cyclic difference")
+    chk.rule("U4", "fibre_scheduler_main_loop computes its sleep as a signed cyclic difference against a clock value read after the pass returned")
     chk.assumptions += ["pending due times within 2^31 ticks (so that the timer head is the earliest due time: C02 T4)"]
     m, K = fib.load()
     chk.note_unit(m)
@@ -115,6 +156,7 @@ def run(chk):
     chk.rule_filter = None
     mp = build.load_unit("librfn/posix/fibre_posix.c")
     chk.note_unit(mp)
+    check_main_loop_clock(chk, mp)
     chk.rule_prefix = "C02."
     chk.rule_filter = lambda r: r.startswith("T1")
     C02.check_t1(chk, [(mp, [f.name for f in mp.defined_functions()])], K, 1)
